@@ -210,13 +210,19 @@ AXES = ["self", "child", "attribute", "parent", "ancestor", "ancestor-or-self", 
 
 class Gen:
     def __init__(self, rng, names=("a", "b", "c"), attrs=("x", "y", "id"), strs=("t", "u", "1", "2", " ", ""),
-                 vars_=None, pis=("t", "u")):
+                 vars_=None, pis=("t", "u"), nsmap=None):
         self.r = rng
         self.names, self.attrs, self.strs, self.pis = names, attrs, strs, pis
         self.vars = vars_ or {}      # name -> type
+        self.nsmap = nsmap or {}     # prefix -> uri usable in name tests
 
     def test(self, axis):
         r = self.r.random()
+        if axis == "namespace":
+            return T_ANY if r < 0.5 else (t_name(self.r.choice(["xml", "p", "q"])) if r < 0.85 else T_NODE)
+        if self.nsmap and r < 0.3 and axis != "attribute":
+            p = self.r.choice(sorted(self.nsmap))
+            return t_name(self.r.choice(self.names), self.nsmap[p], p) if self.r.random() < 0.7 else t_nsany(self.nsmap[p], p)
         if axis == "attribute":
             return t_name(self.r.choice(self.attrs)) if r < 0.6 else (T_ANY if r < 0.85 else T_NODE)
         if r < 0.45:
@@ -301,6 +307,8 @@ class Gen:
         if r < 0.62:
             return neg(self.num_(d - 1))
         if r < 0.72:
+            if self.nsmap and self.r.random() < 0.25:
+                return fn("count", path([step("namespace", self.test("namespace"), abbr=False)]))
             return fn("count", self.ns(d - 1))
         if r < 0.78:
             return fn("sum", self.ns(d - 1))
@@ -333,6 +341,9 @@ class Gen:
         if r < 0.86:
             return fn("translate", self.str_(d - 1), lit(self.r.choice(["abt", "tu", "12", "t"])), lit(self.r.choice(["AB", "x", "", "uvw"])))
         if r < 0.94:
+            if self.nsmap and self.r.random() < 0.3:
+                # the relative order of namespace nodes is implementation-dependent (XPath 5.4): address them by name
+                return fn(self.r.choice(["name", "local-name", "string"]), path([step("namespace", t_name(self.r.choice(["xml", "p", "q"])), abbr=False)]))
             return fn(self.r.choice(["name", "local-name", "namespace-uri"]), self.ns(d - 1)) if self.r.random() < 0.7 else fn(self.r.choice(["name", "local-name"]))
         return self.ns(d - 1)       # a node-set used as a string
 
